@@ -74,7 +74,7 @@ SYMS = ['s0', 's1', 's2', 's3']
 
 
 def plan(tier, seed):
-    n = 1200 if tier == 'quick' else 12000
+    n = 1200 if tier == 'quick' else 24000
     return [{'n': i} for i in range(n)]
 
 
@@ -1398,6 +1398,8 @@ def witness_features(files, cs):
             feats.add(w)
     if re.search(r'\\[A-Za-z][A-Za-z0-9]*\\', text_all):
         feats.add('backslash-concat')
+    if re.search(r'"[^"\n]*[\x00-\x08\x09\x0b-\x1f][^"\n]*"', text_all):
+        feats.add('ctrl-char-in-string')
     # parameter numbers referenced in macro bodies whose internal token byte is TAB / LF / CR, or >= 16
     flags = 0 if cs else re.I
     for mname, ps in macro_params.items():
@@ -1436,7 +1438,7 @@ def witness_features(files, cs):
 def failure_key(pr, feats):
     order = ['MACRO', 'REPT', 'IRP', 'IRPN', 'IRPC', 'WHILE', 'INCLUDE', 'BINCLUDE', 'SHIFT', 'EXITM', 'ALLARGS', 'ARGCOUNT', 'ATTRIBUTE',
              'GLOBALSYMBOLS', 'label', 'default', 'keyword-args', 'excess-args', 'fewer-args', 'empty-arg', 'backslash-concat',
-             'param8', 'param9', 'param12', 'param16+']
+             'ctrl-char-in-string', 'param8', 'param9', 'param12', 'param16+']
     fs = '+'.join(f for f in order if f in feats) or 'none'
     if pr.status == 'differs':
         return 'code-differs-from-hand-expansion:%s' % fs
